@@ -4,7 +4,7 @@
 from abc import abstractmethod, ABCMeta
 from dataclasses import dataclass, field
 import warnings
-from typing import List, Iterator, Optional, Dict
+from typing import List, Iterator, Optional, Dict, Tuple
 import numpy as np
 from tqdm import tqdm
 from qce_circuit.utilities.custom_exceptions import InterfaceMethodException
@@ -228,23 +228,34 @@ class CircuitCompositeOperation(ICircuitCompositeOperation):
 
     @property
     def duration(self) -> float:
-        """:return: Duration [ns]."""
-        total_duration: float = 0.0
-        # Guard clause, if graph does not contain non-Head nodes, return zero total duration
+        """:return: Duration [ns]. Time from the earliest start to the latest end of all contained operations."""
+        earliest_start, latest_end = self._relative_extent()
+        return latest_end - earliest_start
+
+    def _relative_extent(self) -> Tuple[float, float]:
+        """:return: Earliest start and latest end of all contained operations, relative to the start of the first operations."""
+        # Guard clause, if graph does not contain non-Head nodes, return zero extent
         if self.empty_composite:
-            return total_duration
+            return 0.0, 0.0
         # Calculate relative start time of internal operations
         relative_start_time: float = +np.inf
         for start_node in self._circuit_graph.get_nodes_at(depth=1):
             start_time: float = start_node.operation.start_time
             if start_time < relative_start_time:
                 relative_start_time = start_time
-        # Calculate internal duration of operation branch
-        for leaf_node in self._circuit_graph.leaf_nodes:
-            delta_time = leaf_node.operation.end_time - relative_start_time
-            if delta_time > total_duration:
-                total_duration = delta_time
-        return total_duration
+        # Calculate extent over all (nested) operations, not only graph leaf nodes
+        earliest_start: float = 0.0
+        latest_end: float = 0.0
+        for node in self._circuit_graph.get_node_iterator():
+            operation: ICircuitOperation = node.operation
+            start_time: float = operation.start_time - relative_start_time
+            end_time: float = start_time + operation.duration
+            if isinstance(operation, CircuitCompositeOperation):
+                inner_earliest_start, inner_latest_end = operation._relative_extent()
+                start_time, end_time = start_time + inner_earliest_start, start_time + inner_latest_end
+            earliest_start = min(earliest_start, start_time)
+            latest_end = max(latest_end, end_time)
+        return earliest_start, latest_end
     # endregion
 
     # region Interface Methods
